@@ -390,6 +390,23 @@ example :
     (pythonImport d).package = ["acme".toList, "dep_v1".toList, "types".toList] ∧
     str g = "timestamp_pb2.Timestamp".toList ∧ bound (pythonImport g) = "timestamp_pb2".toList := by decide
 
+/-- the text of the emitted import statement binds `bound`: `[from <package> ]import <module>[ as <alias>][  # type: ignore]`
+(over the translation of `Import.__str__`) -/
+theorem translated_import_line_shape (alias module : Str) (package : List Str) :
+    ∃ pre post, import_str alias module package =
+        pre ++ "import ".toList ++ module ++ (if truthy alias then " as ".toList ++ alias else []) ++ post ∧
+      (pre = [] ∨ pre = "from ".toList ++ join ['.'] package ++ [' ']) ∧
+      (post = [] ∨ post = "  # type: ignore".toList) :=
+  import_str_shape alias module package
+
+/-- non-vacuity: the three kinds of line -/
+example :
+    import_str "ad_common".toList "common".toList ["acme".toList, "dep_v1".toList, "types".toList]
+      = "from acme.dep_v1.types import common as ad_common".toList ∧
+    import_str [] "timestamp_pb2".toList ["google".toList, "protobuf".toList]
+      = "from google.protobuf import timestamp_pb2  # type: ignore".toList ∧
+    import_str [] "proto".toList [] = "import proto".toList := by decide
+
 end TranslatedAddress
 
 /-! ## The hand-written import model (Model/Names.lean) agrees with the translation of the current source (Model/AddressT.lean)
